@@ -11,6 +11,7 @@ import FuraxProofs.Props.C10
 import FuraxProofs.Props.C11
 import FuraxProofs.Props.C13
 import FuraxProofs.Props.C15
+import FuraxProofs.Sem.InverseList
 namespace Furax.C06
 open Furax Op
 
@@ -86,5 +87,41 @@ theorem diagonal_pseudo_inverse (d : Rat) :
     d * (if d != 0 then 1 / d else 0) * d = d ∧
     (if d != 0 then 1 / d else 0) * d * (if d != 0 then 1 / d else 0) = (if d != 0 then 1 / d else 0) :=
   C11.pinv_moore_penrose d
+
+/-! ### the closed statements, in the faithful list denotation (FuraxProofs/Sem) -/
+
+/-- **`A.I(A(x)) = x = A(A.I(x))` for every operator with a closed-form inverse**: non-zero scalar, diagonal with
+no zero entry, rotation, axis permutation, lazy-inverse wrappers, identity, and block-diagonal operators of such
+blocks nested to any depth — where `A.I` is the FORM `inverseOp` builds (compared with furax by the
+correspondence check) and both sides are evaluated in the list denotation. -/
+theorem closed_form_inverse_inverts (E : ListSem.Env) (o i : Op) (h : ListSem.ClosedFormInvertible E o)
+    (hi : inverseOp o = .ok i) :
+    Op.inS i = Op.outS o ∧ Op.outS i = Op.inS o ∧
+    (∀ x : List ℝ, x.length = Op.inSize o → ListSem.den E i (ListSem.den E o x) = x) ∧
+    (∀ y : List ℝ, y.length = Op.outSize o → ListSem.den E o (ListSem.den E i y) = y) :=
+  ListSem.inverseOp_inverts E o i h hi
+
+/-- **a diagonal operator with zero entries yields the Moore–Penrose pseudo-inverse**: `D D⁺ D = D` and
+`D⁺ D D⁺ = D⁺` for ARBITRARY diagonal values; the values of `D⁺` are `if d = 0 then 0 else 1/d`, no division by
+zero occurs -/
+theorem singular_diagonal_pseudo_inverse (E : ListSem.Env) (w u : Nat) (p : Params) (h : ListSem.diagonalOK p)
+    (x : List ℝ) (hx : x.length = p.inS.size) :
+    ListSem.den E (.leaf u .diagonal p) (ListSem.den E (.wrap w .diagInv (.leaf u .diagonal p))
+        (ListSem.den E (.leaf u .diagonal p) x)) = ListSem.den E (.leaf u .diagonal p) x ∧
+    ListSem.den E (.wrap w .diagInv (.leaf u .diagonal p)) (ListSem.den E (.leaf u .diagonal p)
+        (ListSem.den E (.wrap w .diagInv (.leaf u .diagonal p)) x)) =
+      ListSem.den E (.wrap w .diagInv (.leaf u .diagonal p)) x :=
+  ListSem.diagonal_moore_penrose E w u p h x hx
+
+/-- everything without a closed form goes to the lazy `InverseOperator`, which refuses non-square operands and,
+for a valid operand that has an inverse, denotes it (A4: exact solver) -/
+theorem no_closed_form_is_lazy (o : Op) (h : ListSem.hasClosedForm o = false) : inverseOp o = mkInverse o :=
+  ListSem.inverseOp_lazy o h
+
+theorem lazy_inverse_inverts (E : ListSem.Env) (o i : Op)
+    (hw : WTExpr (ListSem.listArithSem E).invertible ListSem.listLeafOK o)
+    (hinv : ∃ g, ListSem.IsInvOn (Op.inSize o) (ListSem.den E o) g) (hi : mkInverse o = .ok i) :
+    ListSem.Inverts E o i :=
+  ListSem.mkInverse_inverts E o i hw hinv hi
 
 end Furax.C06
